@@ -19,7 +19,7 @@ ENGINES = {
 # wall-clock budget (seconds) of the exploration phase and cap on runs, per tier
 BUDGET = {
     'quick': {'secs': 40, 'max_runs': 400000, 'block_runs': 100000, 'block_secs': 40},
-    'thorough': {'secs': 900, 'max_runs': 20000000, 'block_runs': 1000000, 'block_secs': 150},
+    'thorough': {'secs': 900, 'max_runs': 2000000000, 'block_runs': 1000000, 'block_secs': 150},
 }
 
 _cache = {}
